@@ -145,7 +145,7 @@ func (s *server) closes(addr string) int {
 	return s.onClose[addr]
 }
 
-func runCase(s *server, useTLS bool, id string, stream []byte, cuts []int, expectClose bool) (handled []string, closed bool, onclose int, err error) {
+func runCase(s *server, useTLS bool, id string, stream []byte, cuts []int, expectClose, closeNow bool) (handled []string, closed bool, onclose int, err error) {
 	var c net.Conn
 	if useTLS {
 		d := &net.Dialer{Timeout: 2 * time.Second}
@@ -173,6 +173,14 @@ func runCase(s *server, useTLS bool, id string, stream []byte, cuts []int, expec
 		if len(rest) > 0 {
 			time.Sleep(15 * time.Millisecond)
 		}
+	}
+	if closeNow {
+		_ = c.Close()
+		for i := 0; i < 300 && s.closes(local) == 0; i++ {
+			time.Sleep(10 * time.Millisecond)
+		}
+		time.Sleep(50 * time.Millisecond)
+		return s.paths(id), false, s.closes(local), nil
 	}
 	// read until the server closes the connection, or give up (one-sided tolerance: generous when a close is due)
 	wait := 400 * time.Millisecond
@@ -246,6 +254,8 @@ func exec(e *lp.Exec) {
 			id := f[1]
 			stream := lp.Unhex(f[2])
 			var cuts []int
+			closeNow := strings.HasSuffix(f[3], "!") // close right after the last write, without waiting for responses
+			f[3] = strings.TrimSuffix(f[3], "!")
 			if f[3] != "whole" {
 				for _, x := range strings.Split(f[3], ",") {
 					n, _ := strconv.Atoi(x)
@@ -254,7 +264,7 @@ func exec(e *lp.Exec) {
 			}
 			want, errc, badurl, badproto := expected(stream, id)
 			e.P("> S %s %s %s badurl=%s badproto=%s", f[1], f[2], f[3], badurl, badproto)
-			got, closed, onclose, err := runCase(servers[mode%3], mode >= 3, id, stream, cuts, errc != 0)
+			got, closed, onclose, err := runCase(servers[mode%3], mode >= 3, id, stream, cuts, errc != 0, closeNow)
 			if err != nil {
 				e.P("R dial-failed %v", err)
 				continue
@@ -352,6 +362,9 @@ func gen(g *lp.Gen) {
 			if len(stream) > 2 {
 				cuts = strconv.Itoa(1 + g.Intn(len(stream)-1))
 			}
+		}
+		if !bad && g.Chance(1, 2) { // a valid stream, and the client closes right after its last write
+			cuts += "!"
 		}
 		g.P("C %d", mode)
 		g.P("S %s %s %s", id, lp.Hex([]byte(stream)), cuts)
